@@ -264,7 +264,8 @@ package kvql
 //
 // The batch form builds the same keys, pair by pair.
 //@ func (a *AggregatePlan) batchGetAggrKeys(chunk []KVPair, ctx *ExecuteCtx) (ret []string, err error)
-//@   props C09 C03
+//@   props C09 C03 C05
+//@   requires[C05] nokeys: ctx != nil && ctx.EnableCache && ctx.FieldChunkKeyCaches != nil ==> (forall q B :: !has(ctx.FieldChunkKeyCaches, q))
 //@   ghost m Int
 //@   requires a != nil && (forall i Int :: 0 <= i && i < len(a.GroupByFields) ==> a.GroupByFields[i].Expr != nil)
 //@   assigns ctx.Hit, mapof(ctx.FieldCaches), mapof(ctx.FieldChunkKeyCaches), mapof(ctx.FieldChunkCaches)
@@ -291,7 +292,7 @@ package kvql
 //
 // ---------------------------------------------------------------------------------------------
 // The grouping loop (C05: the per-row alias cache belongs to the pair being processed; C13: read
-// only, errors surface). Which row a pair is dispatched to is not yet specified.
+// only, errors surface). Dispatch (C09): at the end of every iteration the row that was updated is the group map's entry for the pair's key, and a row created in this iteration is the last of aggrRows (first-seen order).
 //@ define wfAggField(c *AggrPlanField) Bool = c != nil && len(c.Funcs) == len(c.FuncExprs) && (c.IsKey ==> c.Expr != nil) && (forall i Int :: 0 <= i && i < len(c.FuncExprs) ==> c.FuncExprs[i] != nil && len(c.FuncExprs[i].Args) >= 1 && c.FuncExprs[i].Args[0] != nil && c.Funcs[i] != nil)
 //@ define wfAggRow(row []*AggrPlanField) Bool = forall i Int :: 0 <= i && i < len(row) ==> wfAggField(row[i]) && (!row[i].IsKey ==> len(row[i].FuncExprs) > 0)
 //@ define wfAggPlan(a *AggregatePlan) Bool = a != nil && a.ChildPlan != nil && a.aggrMap != nil && wfAggRow(a.aggrFields) && (forall i Int :: 0 <= i && i < len(a.GroupByFields) ==> a.GroupByFields[i].Expr != nil)
@@ -319,7 +320,7 @@ package kvql
 //@   ensures shape: err == nil ==> fresh(row) && len(row) == len(a.aggrFields) && wfAggRow(row)
 //
 //@ func (a *AggregatePlan) prepare(ctx *ExecuteCtx) (err error)
-//@   props C05 C13
+//@   props C05 C13 C09
 //@   requires wfAggPlan(a) && wfCursor(a.ChildPlan) && !failed
 //@   requires[C05] wf: wfCtx(ctx) && wfRefs()
 //@   assigns a.prepared, a.aggrRows, allelems([]*AggrPlanField), mapof(a.aggrMap), pcur(a.ChildPlan), nops, failed, lastErr, allof(aggrCountFunc.counter), allof(aggrSumFunc.isum), allof(aggrSumFunc.fsum), allof(aggrSumFunc.isFloat), allof(aggrAvgFunc.isum), allof(aggrAvgFunc.fsum), allof(aggrAvgFunc.count), allof(aggrAvgFunc.isFloat), allof(aggrMinFunc.imin), allof(aggrMinFunc.fmin), allof(aggrMinFunc.isFloat), allof(aggrMinFunc.first), allof(aggrMaxFunc.imax), allof(aggrMaxFunc.fmax), allof(aggrMaxFunc.isFloat), allof(aggrMaxFunc.first), allof(aggrQuantileFunc.stream), allof(aggrJsonArrayAggFunc.items), allof(aggrGroupConcatFunc.items), ctx.Hit, mapof(ctx.FieldCaches), mapof(ctx.FieldChunkKeyCaches), mapof(ctx.FieldChunkCaches)
@@ -328,9 +329,11 @@ package kvql
 //@   ensures done: err == nil ==> a.prepared
 //@   loop 0
 //@     invariant wfAggPlan(a) && wfCursor(a.ChildPlan) && !failed && nmut == old(nmut)
+//@     atend assert[C09] dispatched: has(a.aggrMap, val(aggrKey)) && a.aggrMap[val(aggrKey)] == row
+//@     atend assert[C09] firstseen: !have ==> len(a.aggrRows) > 0 && a.aggrRows[len(a.aggrRows) - 1] == row
 //
 //@ func (a *AggregatePlan) prepareBatch(ctx *ExecuteCtx) (err error)
-//@   props C05 C13
+//@   props C05 C13 C09
 //@   requires wfAggPlan(a) && wfCursor(a.ChildPlan) && !failed
 //@   requires[C05] wf: wfCtx(ctx) && wfRefs()
 //@   assigns a.prepared, a.aggrRows, allelems([]*AggrPlanField), mapof(a.aggrMap), pcur(a.ChildPlan), nops, failed, lastErr, allof(aggrCountFunc.counter), allof(aggrSumFunc.isum), allof(aggrSumFunc.fsum), allof(aggrSumFunc.isFloat), allof(aggrAvgFunc.isum), allof(aggrAvgFunc.fsum), allof(aggrAvgFunc.count), allof(aggrAvgFunc.isFloat), allof(aggrMinFunc.imin), allof(aggrMinFunc.fmin), allof(aggrMinFunc.isFloat), allof(aggrMinFunc.first), allof(aggrMaxFunc.imax), allof(aggrMaxFunc.fmax), allof(aggrMaxFunc.isFloat), allof(aggrMaxFunc.first), allof(aggrQuantileFunc.stream), allof(aggrJsonArrayAggFunc.items), allof(aggrGroupConcatFunc.items), ctx.Hit, mapof(ctx.FieldCaches), mapof(ctx.FieldChunkKeyCaches), mapof(ctx.FieldChunkCaches)
@@ -341,3 +344,5 @@ package kvql
 //@     invariant wfAggPlan(a) && wfCursor(a.ChildPlan) && !failed && nmut == old(nmut)
 //@   loop 1 (aggrKey)
 //@     invariant wfAggPlan(a) && wfCursor(a.ChildPlan) && !failed && nmut == old(nmut) && len(aggrKeys) == len(kvps)
+//@     atend assert[C09] dispatched: has(a.aggrMap, val(aggrKey)) && a.aggrMap[val(aggrKey)] == row
+//@     atend assert[C09] firstseen: !have ==> len(a.aggrRows) > 0 && a.aggrRows[len(a.aggrRows) - 1] == row
